@@ -565,7 +565,81 @@ func TestC19_RaceStress(t *testing.T) {
 				}()
 				client := []string{"A", "B"}[i%2]
 				auth := h.Auth{BasicUser: client, BasicPass: "secret-" + client}
-				switch i % 14 {
+				// several goroutines presenting the *same* credential at the same instant
+				burst := func(n int, f func()) {
+					var start, fin sync.WaitGroup
+					start.Add(1)
+					for k := 0; k < n; k++ {
+						fin.Add(1)
+						go func() {
+							defer fin.Done()
+							defer func() {
+								if r := recover(); r != nil {
+									atomic.AddInt64(&nPanics, 1)
+									firstPanic.Store(fmt.Sprint(r))
+								}
+							}()
+							start.Wait()
+							f()
+						}()
+					}
+					start.Done()
+					fin.Wait()
+				}
+				switch i % 19 {
+				case 14:
+					pr := w.PAR(url.Values{"client_id": {client}, "response_type": {"code"}, "state": {"state-0123456789"}, "redirect_uri": {redirectURI}, "scope": {"offline a"}}, auth)
+					if pr.RequestURI != "" {
+						burst(3, func() {
+							ar := w.Authorize(url.Values{"client_id": {client}, "request_uri": {pr.RequestURI}}, h.Consent{})
+							put(&shared.codes, ar.Code+"|"+client)
+						})
+					}
+				case 15:
+					ar := w.Authorize(url.Values{"client_id": {client}, "response_type": {"code id_token"}, "state": {"state-0123456789"}, "redirect_uri": {redirectURI}, "scope": {"offline openid a"}, "nonce": {"nonce-0123456789"}}, h.Consent{})
+					if ar.Code != "" {
+						burst(3, func() {
+							tr := w.Token(url.Values{"grant_type": {"authorization_code"}, "code": {ar.Code}, "redirect_uri": {redirectURI}}, auth, h.TokenOpts{})
+							put(&shared.refresh, tr.Refresh)
+							put(&shared.access, tr.Access)
+						})
+					}
+				case 16:
+					tr := w.Token(url.Values{"grant_type": {"password"}, "username": {"peter"}, "password": {"pw"}, "scope": {"offline a"}}, auth, h.TokenOpts{Session: h.NewSess("")})
+					if tr.Refresh != "" {
+						burst(3, func() {
+							t2 := w.Token(url.Values{"grant_type": {"refresh_token"}, "refresh_token": {tr.Refresh}}, auth, h.TokenOpts{})
+							put(&shared.refresh, t2.Refresh)
+							put(&shared.access, t2.Access)
+						})
+					}
+				case 17:
+					dr := w.DeviceAuth(url.Values{"client_id": {client}, "scope": {"openid offline a"}}, auth, h.Consent{})
+					if dr.DeviceCode != "" {
+						w.DeviceDecide(dr.UserCode, true, h.Consent{Session: h.NewSess("user-d")}, dr.DeviceCode)
+						burst(3, func() {
+							t2 := w.Token(url.Values{"grant_type": {deviceGrant}, "device_code": {dr.DeviceCode}}, auth, h.TokenOpts{})
+							put(&shared.refresh, t2.Refresh)
+							put(&shared.access, t2.Access)
+						})
+					}
+				case 18:
+					tr := w.Token(url.Values{"grant_type": {"password"}, "username": {"peter"}, "password": {"pw"}, "scope": {"offline a"}}, auth, h.TokenOpts{Session: h.NewSess("")})
+					if tr.Access != "" {
+						k := int64(0)
+						burst(4, func() {
+							switch atomic.AddInt64(&k, 1) % 4 {
+							case 0:
+								w.Revoke(url.Values{"token": {tr.Access}}, auth)
+							case 1:
+								w.Revoke(url.Values{"token": {tr.Refresh}}, auth)
+							case 2:
+								w.IntrospectEndpoint(url.Values{"token": {tr.Access}}, auth)
+							default:
+								w.Token(url.Values{"grant_type": {"refresh_token"}, "refresh_token": {tr.Refresh}}, auth, h.TokenOpts{})
+							}
+						})
+					}
 				case 9:
 					dr := w.DeviceAuth(url.Values{"client_id": {client}, "scope": {"openid offline a"}}, auth, h.Consent{})
 					if dr.DeviceCode != "" {
